@@ -23,8 +23,7 @@ the keywords one `pandas.read_csv` call sees                  `Kw` (`header`: ab
 `pandas_read_text`: `bio.write(header)` iff `write_header`    `blockBytes`
 `except EmptyDataError: if is_first: raise; head.iloc[:0]`    `blockFrame` (`emptyData`; after fix af2d511)
 `block_mask` (first block of EVERY file)                      `framesOf … true` per file in `readFiles`
-`dd.from_map(…, blocks, parts)` with no block at all           `readFilesWith`: `none` (ValueError, also where pandas
-                                                              returns an empty frame: empty file read with `names=`)
+`if not blocks: return dd.from_pandas(head.iloc[:0], 1)`      `readFilesWith`: one empty partition (after fix 9074abb)
 `to_csv`: header of partition i                               `WOpts`, `hfpo`, `partHeader`, `partText`, `writeFiles`
 A frame is `(cols, rows)`: the text of the line that names the columns, terminator stripped (absent when `names=` /
 positional), and the data lines.
@@ -174,9 +173,10 @@ def readFilesWith (rk : Kw → Kw) (u : Kw) (S : Nat) (files : List (List Nat)) 
     if sampleTooSmall u (sampleSize u bs S) (sampleOf (sampleSize u bs S) NL f0) then none
     else match headerBytes u (sampleOf (sampleSize u bs S) NL f0), pdFrame u (sampleOf (sampleSize u bs S) NL f0) with
       | some hdr, some head =>
-        -- `dd.from_map` over no block at all (every file empty): ValueError("All `iterables` must have a non-zero length")
+        -- no block at all (every file empty, read with a blocksize): one empty partition built from `head`
+        -- (`if not blocks: return dd.from_pandas(head.iloc[:0], npartitions=1)`, after fix 9074abb)
         match readAll rk u hdr head.cols bs files with
-        | some [] => none
+        | some [] => some [⟨head.cols, []⟩]
         | r => r
       | _, _ => none
 
